@@ -58,6 +58,9 @@ type Act struct {
 	Ho string      `json:"ho"`
 	Q  string      `json:"q"`
 	Rm []string    `json:"rm"`
+	// the header map (and the list of headers to remove) is nil instead of empty, the way processors build an action that
+	// sets no header (&actions.RetryRequestAction{}); only meaningful when h is empty
+	NilH bool `json:"nilh,omitempty"`
 }
 
 type Remedy struct {
@@ -84,6 +87,8 @@ type Case struct {
 	// pool: equal action values are the SAME action instance and equal header maps the SAME map object, within a sequence
 	// and across the folds of the history (a processor handing out its configured action / header map again).
 	H int `json:"h,omitempty"`
+	// every action of the sequence that sets no header gets a nil header map
+	NilEmpty bool `json:"nil_empty,omitempty"`
 }
 
 // pool of interned action instances and header maps of one history
@@ -194,18 +199,33 @@ func strs(s []string) []string {
 	return append([]string{}, s...)
 }
 
+// hm is the header map of an action: nil when the action is to be built with a nil map
+func hm(a Act) map[string]string {
+	if a.NilH && len(a.H) == 0 {
+		return nil
+	}
+	return cur.hmapOf(a.H)
+}
+
+func rm(a Act) []string {
+	if a.NilH && len(a.Rm) == 0 {
+		return nil
+	}
+	return strs(a.Rm)
+}
+
 func reqAction(a Act) actions.ReqLunarAction {
 	switch a.K {
 	case "noop":
 		return &actions.NoOpAction{}
 	case "early":
-		return &actions.EarlyResponseAction{Status: a.St, Body: a.B, Headers: cur.hmapOf(a.H)}
+		return &actions.EarlyResponseAction{Status: a.St, Body: a.B, Headers: hm(a)}
 	case "modh":
-		return &actions.ModifyHeadersAction{HeadersToSet: cur.hmapOf(a.H)}
+		return &actions.ModifyHeadersAction{HeadersToSet: hm(a)}
 	case "modreq":
-		return &actions.ModifyRequestAction{HeadersToSet: cur.hmapOf(a.H), Host: a.Ho, Path: a.P, QueryParams: a.Q, Body: a.B}
+		return &actions.ModifyRequestAction{HeadersToSet: hm(a), Host: a.Ho, Path: a.P, QueryParams: a.Q, Body: a.B}
 	case "gen":
-		return &actions.GenerateRequestAction{HeadersToSet: cur.hmapOf(a.H), HeadersToRemove: strs(a.Rm), Body: a.B}
+		return &actions.GenerateRequestAction{HeadersToSet: hm(a), HeadersToRemove: rm(a), Body: a.B}
 	}
 	vh.Die("unknown request action kind %q", a.K)
 	return nil
@@ -216,9 +236,9 @@ func respAction(a Act) actions.RespLunarAction {
 	case "noop":
 		return &actions.NoOpAction{}
 	case "modresp":
-		return &actions.ModifyResponseAction{HeadersToSet: cur.hmapOf(a.H), Body: a.B, Status: a.St}
+		return &actions.ModifyResponseAction{HeadersToSet: hm(a), Body: a.B, Status: a.St}
 	case "retry":
-		return &actions.RetryRequestAction{HeadersToSet: cur.hmapOf(a.H)}
+		return &actions.RetryRequestAction{HeadersToSet: hm(a)}
 	}
 	vh.Die("unknown response action kind %q", a.K)
 	return nil
@@ -373,7 +393,7 @@ func viaRouting(c Case) (vh.Ev, action.Actions) {
 		}
 		args := lunarMessages.OnRequest{ID: "t", SequenceID: "t", Method: "GET", URL: "api.test/x", Path: "/x",
 			Headers: map[string]string{"host": "api.test"}}
-		return vh.Ev{"ev": "req", "id": c.ID, "via": c.Via, "h": c.H, "seq": c.Seq}, routing.VerifGetSPOEReqActions(args, list)
+		return vh.Ev{"ev": "req", "id": c.ID, "via": c.Via, "h": c.H, "seq": echo(c.Seq), "nil_positions": nilPositions(c.Seq)}, routing.VerifGetSPOEReqActions(args, list)
 	}
 	list := make([]actions.RespLunarAction, len(c.Seq))
 	for i, a := range c.Seq {
@@ -381,7 +401,7 @@ func viaRouting(c Case) (vh.Ev, action.Actions) {
 	}
 	args := lunarMessages.OnResponse{ID: "t", SequenceID: "t", Method: "GET", URL: "api.test/x", Status: 200,
 		Headers: map[string]string{"content-type": "text/plain"}}
-	return vh.Ev{"ev": "resp", "id": c.ID, "via": c.Via, "h": c.H, "seq": c.Seq}, routing.VerifGetSPOERespActions(args, list)
+	return vh.Ev{"ev": "resp", "id": c.ID, "via": c.Via, "h": c.H, "seq": echo(c.Seq), "nil_positions": nilPositions(c.Seq)}, routing.VerifGetSPOERespActions(args, list)
 }
 
 // real remedy plugins, fresh per case
@@ -483,6 +503,49 @@ func normalize(c *Case) {
 	if c.Seq == nil {
 		c.Seq = []Act{}
 	}
+	if c.NilEmpty {
+		for i := range c.Seq {
+			if len(c.Seq[i].H) == 0 {
+				c.Seq[i].NilH = true
+			}
+		}
+	}
+}
+
+// echo is the sequence as the specification sees it (values only: a nil header map is an empty set of edits)
+func echo(seq []Act) []Act {
+	out := make([]Act, len(seq))
+	for i, a := range seq {
+		a.NilH = false
+		out[i] = a
+	}
+	return out
+}
+
+func nilPositions(seq []Act) []int {
+	out := []int{}
+	for i, a := range seq {
+		if a.NilH {
+			out = append(out, i)
+		}
+	}
+	return out
+}
+
+// guarded runs one transaction; a panic of the real code is an observation: no action, no encoding
+func guarded(c Case, f func(Case) (vh.Ev, action.Actions)) (ev vh.Ev, acts action.Actions, panicked string) {
+	defer func() {
+		if r := recover(); r != nil {
+			side := "req"
+			if c.Side != "req" {
+				side = "resp"
+			}
+			ev = vh.Ev{"ev": side, "id": c.ID, "via": c.Via, "h": c.H, "seq": echo(c.Seq), "nil_positions": nilPositions(c.Seq)}
+			acts, panicked = nil, fmt.Sprintf("panic: %v", r)
+		}
+	}()
+	ev, acts = f(c)
+	return ev, acts, ""
 }
 
 // one encoded transaction whose SPOE actions are retained and read only after later transactions were encoded
@@ -490,6 +553,7 @@ type pending struct {
 	ev    vh.Ev
 	acts  action.Actions
 	early string
+	panic string
 }
 
 func (p *pending) finish() vh.Ev {
@@ -497,8 +561,11 @@ func (p *pending) finish() vh.Ev {
 		return p.ev
 	}
 	out := decode(p.acts)
-	p.ev["out"] = out
 	p.ev["stable"] = key(out) == p.early // false: the actions handed back changed after the call returned
+	if p.panic != "" {
+		out.Bad = append(out.Bad, p.panic)
+	}
+	p.ev["out"] = out
 	return p.ev
 }
 
@@ -513,9 +580,9 @@ func run(cases []Case, tr *vh.Trace) {
 		var p pending
 		switch c.Via {
 		case "routing":
-			p.ev, p.acts = viaRouting(c)
+			p.ev, p.acts, p.panic = guarded(c, viaRouting)
 		case "runner":
-			p.ev, p.acts = viaRunner(c)
+			p.ev, p.acts, p.panic = guarded(c, viaRunner)
 		default:
 			vh.Die("unknown via %q", c.Via)
 		}
@@ -541,7 +608,7 @@ func conc(cases []Case, tr *vh.Trace, workers int) {
 			for i := w; i < len(cases); i += workers {
 				c := cases[i]
 				var p pending
-				p.ev, p.acts = viaRouting(c)
+				p.ev, p.acts, p.panic = guarded(c, viaRouting)
 				p.ev["worker"] = w
 				p.early = key(decode(p.acts))
 				results[w] = append(results[w], &p)
